@@ -1,20 +1,10 @@
-"""tables used by bin/check: which engine decides which property, case budgets, evidence texts"""
-
-ENGINES = {
-    'e2': dict(
-        model='coq/Model/Offsets.v (+ Model/Tracker.v)',
-        rule='cases from harness/e2 Gen (boundary-biased: lag == maxlag +-2, skipped == maxrec +-1, absent/invalid/beyond-head '
-             'committed offsets, offsets up to 2^62, maxlag 0..2^63-1, faults on either query); a case is non-trivial when the '
-             'model run hit a branch tag >= 10 (a partition kept / capped / request filed / trimmed); distinct = distinct input trees',
-        tags={'1': 'Committed() error', '2': 'watermark error', '3': 'Assign error', '10': 'some partition keeps committed offset',
-              '11': 'some partition capped', '12': 'request filed', '13': 'request trimmed to maxrec', '14': 'outside C06 domain (duplicates/negatives)'},
-        trusted_base=['hand-written model of calculateAssignmentOffsets/offsetForPartition/RequestRecovery/assignPartitions (Model/Offsets.v) '
-                      'tied to the code only by this correspondence run',
-                      'verif hook node/kafkaconsumer/verif_hooks.go (constructor without goroutines, AssignPartitionsV)'],
-        assumptions=['broker answers are oracles supplied by the case; Go int64 arithmetic equals Z on the quantified ranges (theorem C06_no_overflow)'],
-    ),
-}
-
-PROPS = {
-    'C06': dict(engine='e2', n=dict(quick=3000, thorough=60000)),
-}
+"""tables used by bin/check, assembled from bin/engine_defs/*.py (one file per engine, each defining
+ENGINES = {name: {...}} and PROPS = {property id: {...}})"""
+import glob, os, importlib.util
+ENGINES, PROPS = {}, {}
+for _f in sorted(glob.glob(os.path.join(os.path.dirname(os.path.abspath(__file__)), 'engine_defs', '*.py'))):
+    _spec = importlib.util.spec_from_file_location('engine_defs_' + os.path.basename(_f)[:-3], _f)
+    _m = importlib.util.module_from_spec(_spec)
+    _spec.loader.exec_module(_m)
+    ENGINES.update(_m.ENGINES)
+    PROPS.update(_m.PROPS)
